@@ -59,7 +59,7 @@ def split_unit(s):
 
 def ang(s):
     num, unit = split_unit(s)
-    return float(num) * ANGLE[unit]
+    return float(num) * ANGLE[unit.lower()]      # units are case-insensitive, like the function names
 
 
 def length_value(s, ctx_axis):
@@ -140,6 +140,9 @@ INSTANCES = [
     # angles beyond a full turn
     ("rotate", ["0.00001"]), ("rotate", ["89.99996"]), ("rotate", ["0.2500001turn"]), ("rotate", ["200.00004grad"]),
     ("rotate", ["1e-5rad"]), ("skewx", ["0.00002"]), ("rotate", ["450"]), ("rotate", ["-810"]), ("rotate", ["179.99999", "4", "-3"]),
+    # unit spellings in upper / mixed case
+    ("rotate", ["0.25TURN"]), ("rotate", ["100GRAD"]), ("rotate", ["0.5Rad"]), ("skewx", ["0.05Turn"]), ("rotate", ["30DEG"]),
+    ("skew", ["20Deg", "10GRAD"]),
 ]
 CORE16 = [INSTANCES[i] for i in (0, 2, 3, 4, 6, 7, 8, 9, 10, 14, 17, 20, 25, 31, 13, 1)]
 CORE3 = [("rotate", ["30"]), ("translate", ["3", "-2"]), ("scale", ["2", "3"])]
@@ -225,7 +228,7 @@ class Units(SubCheck):
     def __init__(self, svg, tier):
         self.svg = svg
         self.p = Product(["translate2", "translate1", "translatex", "translatey", "rotate3"], UNITS, UNITS,
-                         range(len(RENDER)), range(len(WRAP)), ["before", "after"])
+                         range(len(RENDER)), range(len(WRAP)), ["before", "after", "upper"])
 
     def size(self):
         return len(self.p)
@@ -245,8 +248,15 @@ class Units(SubCheck):
         funcs = [f]
         w = WRAP[wi]
         if w is not None:
-            funcs = [w, f] if pos == "before" else [f, w]
-        return dict(funcs=[[n, list(a)] for n, a in funcs], s=spell(funcs), render=RENDER[ri], form=form, u1=u1, u2=u2,
+            funcs = [w, f] if pos in ("before", "upper") else [f, w]
+        s = spell(funcs)
+        if pos == "upper":
+            # the same list with the unit letters in upper case (units are case-insensitive)
+            fu = (f[0], [a[:len(a) - len(u)] + u.upper() if u and a.endswith(u) else a for a, u in zip(f[1], (u1, u2, u2) if form == "rotate3" else (u1, u2))]) if form != "rotate3" else (f[0], [f[1][0], f[1][1][:len(f[1][1]) - len(u1)] + u1.upper() if u1 else f[1][1], f[1][2][:len(f[1][2]) - len(u2)] + u2.upper() if u2 else f[1][2]])
+            if form == "translatey":
+                fu = (f[0], [f[1][0][:len(f[1][0]) - len(u2)] + u2.upper() if u2 else f[1][0]])
+            s = spell([w, fu] if w is not None else [fu])
+        return dict(funcs=[[n, list(a)] for n, a in funcs], s=s, render=RENDER[ri], form=form, u1=u1, u2=u2,
                     wrap=(w[0] if w else None), pos=pos)
 
     def run(self, case):
